@@ -1,5 +1,6 @@
 """C18 Mistakes in a test case are reported as such, never as internal errors.
 Grammar-based fuzzing through the real CLI (D1) with an exception monitor and the outcome-table monitor (M3)."""
+import os
 import re
 
 from vf import common
@@ -412,10 +413,82 @@ def judge(case, r, count):
     return viol, [], ident
 
 
+_HDR = re.compile(r'^\[(conf|setup|act|before-assert|assert|cleanup)\]$')
+_SUITE_CASE_LINE = re.compile(r'^case\s+(\S+): \([^)]*\) (\S+)\s*$', re.M)
+_SUITE_SAMPLE_LABELS = ('valid', 'bad-int', 'bad-regex', 'bad-repl', 'wrong-type!', 'wrong-type', 'unknown-instruction')
+
+
+def _as_suite(text):
+    """The instructions of the case moved into a suite file that lists three cases holding only the action: the same
+    text, contributed to each case by the suite.  -> (suite text, case text) or None if the case does not split."""
+    blocks = []
+    cur = None
+    for line in text.split('\n'):
+        m = _HDR.match(line)
+        if m:
+            cur = [m.group(1), []]
+            blocks.append(cur)
+        elif line.lstrip().startswith('[') or cur is None:
+            return None
+        else:
+            cur[1].append(line)
+    if any(b[0] == 'conf' for b in blocks) or not any(b[0] != 'act' and any(l.strip() for l in b[1]) for b in blocks):
+        return None
+    act = '\n'.join(l for b in blocks if b[0] == 'act' for l in b[1])
+    suite = '[cases]\nk1.case\nk2.case\nk3.case\n' + ''.join('[%s]\n%s\n' % (b[0], '\n'.join(b[1]))
+                                                                for b in blocks if b[0] != 'act')
+    return suite, '[act]\n' + act + '\n'
+
+
+def _run_as_suite(case, ctx, ses, standalone_ident):
+    """The statement speaks of whatever text a test case contains - also text a suite file contributes to it, where one
+    parsed instruction serves every case of the run: every case is reported as the case alone is."""
+    sp = _as_suite(case['text'])
+    if sp is None:
+        return []
+    suite, ctext = sp
+    files = dict(G.FILES)
+    files.update({'s.suite': suite, 'k1.case': ctext, 'k2.case': ctext, 'k3.case': ctext})
+    d = ses.new_case_dir(files)
+    r = ses.run(['suite', os.path.join(d, 's.suite')], cwd=d, mode=None, m3=False)
+    ctx.count('c18.suite_runs')
+    viol = []
+    if not r.timed_out:
+        idents = [m.group(2) for m in _SUITE_CASE_LINE.finditer(r.out)]
+        tb = traceback_info(r.err)
+        detail = {'suite_text': suite[-2500:], 'case_text': ctext, 'observed': {'rc': r.rc, 'stdout': r.out[-600:],
+                                                                               'stderr_tail': r.err[-900:]}}
+        if r.exc is not None:
+            viol.append({'what': 'C18 escaped-exception [suite run of %s/%s %s]: %s' % (
+                case['phase'], case['instr'], case['label'], r.exc.strip().split('\n')[-1][:200]), 'detail': detail})
+        elif r.rc == 3:
+            ctx.count('c18.suite_invalid')  # the mistake is found when the suite file is read: reported as such
+            if tb.get('last_lib_frame'):
+                viol.append({'what': 'C18 traceback [suite run of %s/%s %s]: %s' % (
+                    case['phase'], case['instr'], case['label'], tb.get('exception_line', '')[:120]), 'detail': detail})
+        elif len(idents) == 3:
+            ctx.count('c18.suite_cases_judged', 3)
+            if standalone_ident != 'INTERNAL_ERROR' and 'INTERNAL_ERROR' in idents:
+                viol.append({'what': 'C18 internal-error [suite run of %s/%s %s %s]: the same text contributed by a suite '
+                                     'file to three cases is reported as %r (alone: %s)' % (
+                                         case['phase'], case['instr'], case['label'], case['detail'][:30], idents,
+                                         standalone_ident), 'detail': detail})
+            elif len(set(idents)) != 1 and 'INTERNAL_ERROR' in idents:
+                viol.append({'what': 'C18 internal-error [suite run of %s/%s %s]: cases with the same text are reported '
+                                     'differently: %r' % (case['phase'], case['instr'], case['label'], idents),
+                             'detail': detail})
+    ses.clean_tmp()
+    ses.drop(d)
+    return viol
+
+
 def run_case(case, ctx):
     ses = ctx.get_session()
     r, d = ses.run_case_text(case['text'], files=G.FILES, mode='normal')
     viol, inconc, ident = judge(case, r, ctx.count)
+    if case['label'].split('+')[0] in _SUITE_SAMPLE_LABELS and not inconc and case['phase'] != 'act' and \
+            (len(case['text']) + case['tok']) % 5 == 0:
+        viol = viol + _run_as_suite(case, ctx, ses, ident)
     if case['label'] == 'valid' and not inconc and not viol:
         if r.rc == 0 and r.out == 'PASS\n':
             ctx.count('c18.valid_base_pass')
